@@ -440,6 +440,24 @@ func roBuildMsg(w *roWorld, m *roMsg, ts uint32) base.RtmpMsg {
 			p = append(p, byte(len(b)>>24), byte(len(b)>>16), byte(len(b)>>8), byte(len(b)))
 			p = append(p, b...)
 		}
+	case "meta":
+		// onMetaData as encoders send it: @setDataFrame, audiocodecid of the stream's codec, audiosamplerate m.N (0: absent)
+		typ = base.RtmpTypeIdMetadata
+		pairs := rtmp.ObjectPairArray{{Key: "duration", Value: float64(0)}}
+		if id, ok := map[string]int{"aac": 10, "opus": 13, "g711a": 7, "g711u": 8}[w.a]; ok {
+			pairs = append(pairs, rtmp.ObjectPair{Key: "audiocodecid", Value: float64(id)})
+			if m.N > 0 {
+				pairs = append(pairs, rtmp.ObjectPair{Key: "audiosamplerate", Value: float64(m.N)})
+			}
+		}
+		if id, ok := map[string]int{"avc": 7, "hevc": 12}[w.v]; ok {
+			pairs = append(pairs, rtmp.ObjectPair{Key: "videocodecid", Value: float64(id)})
+		}
+		var mb bytes.Buffer
+		_ = rtmp.Amf0.WriteString(&mb, "@setDataFrame")
+		_ = rtmp.Amf0.WriteString(&mb, "onMetaData")
+		_ = rtmp.Amf0.WriteObject(&mb, pairs)
+		p = mb.Bytes()
 	case "a":
 		typ = base.RtmpTypeIdAudio
 		switch w.a {
@@ -457,6 +475,8 @@ func roBuildMsg(w *roWorld, m *roMsg, ts uint32) base.RtmpMsg {
 	csid := 6
 	if typ == base.RtmpTypeIdAudio {
 		csid = 4
+	} else if typ == base.RtmpTypeIdMetadata {
+		csid = 5
 	}
 	return base.RtmpMsg{Header: base.RtmpHeader{Csid: csid, MsgLen: uint32(len(p)), MsgTypeId: typ, MsgStreamId: 1,
 		TimestampAbs: ts}, Payload: p}
